@@ -79,6 +79,26 @@ def run(ck: Check) -> None:
         if any(isinstance(v, (bytes, tuple)) for v in p.values() if not isinstance(v, proto.Opaque)):
             pass
         cases.append(Case("build", [which, a, b, p], tag=tag, group=i))
+    # directed: every argument of both builders given every corrupting value in turn (not sampled), for each kind of metadata type — an argument that is
+    # optional for one kind of metadata is not thereby optional for another (a root needs its version whichever builder makes it)
+    a0 = CLOCKS[0]
+    kk0 = [gen.key(1).hex, gen.key(2).hex]
+    gi = 100000
+    for typ in ("root", "key_mgr", "channeler"):
+        basep = {"metadata_type": typ, "delegations": {"root": {"pubkeys": list(kk0), "threshold": 1}}, "version": 3, "timestamp": "2020-07-13T05:46:45Z", "expiration": "2031-07-13T05:46:45Z"}
+        for k_ in ("delegations", "version", "timestamp", "expiration", "metadata_type"):
+            for bad in BAD:
+                p = dict(basep)
+                p[k_] = bad
+                gi += 1
+                cases.append(Case("build", ["delegating", a0, a0, p], tag="corrupted:" + k_, group=gi))
+    basep = {"root_version": 2, "root_pubkeys": list(kk0), "root_threshold": 1, "key_mgr_pubkeys": [gen.key(3).hex], "key_mgr_threshold": 1}
+    for k_ in list(basep) + ["root_timestamp", "root_expiration"]:
+        for bad in BAD:
+            p = dict(basep)
+            p[k_] = bad
+            gi += 1
+            cases.append(Case("build", ["root", a0, a0, p], tag="corrupted:" + k_, group=gi))
     res = ck.run_cases(cases, "corr:metadata-builders/value")
     roots = []
     to_checker = []
